@@ -944,6 +944,7 @@ package evaluator
 //@   loop 2
 //@     invariant isArr(v0) && a == arr(v0) && len(a) > 0 && numOk(a[0]) && allNum(old(heap), a, iter + 1)
 //@     invariant forall k Int :: 0 <= k && k <= iter ==> numOk(a[k]) && decCmp(numDec(a[k]), max) != 1
+//@     invariant[C18] finite: jsonInput() ==> decIsFin(max)
 //@     invariant forall k Int :: 0 <= k && k < len(a) - 1 ==> a[1:][k] == at(old(heap), a, k + 1)
 //@ func arrayMin
 //@   tags C13 C02 C03 C06
@@ -961,6 +962,7 @@ package evaluator
 //@   loop 2
 //@     invariant isArr(v0) && a == arr(v0) && len(a) > 0 && numOk(a[0]) && allNum(old(heap), a, iter + 1)
 //@     invariant forall k Int :: 0 <= k && k <= iter ==> numOk(a[k]) && decCmp(numDec(a[k]), min) != 0 - 1
+//@     invariant[C18] finite: jsonInput() ==> decIsFin(min)
 //@     invariant forall k Int :: 0 <= k && k < len(a) - 1 ==> a[1:][k] == at(old(heap), a, k + 1)
 
 // sort_by / max_by / min_by: the key of every element, including the only element of a one-element
